@@ -148,6 +148,32 @@ def _thetas(case):
     return {"thetas": [0.0, 1.0, 2.5], "functional": "quantile", "alpha": 0.25}
 
 
+def contingency_counts(fcst, obs, *, reduce_dims=None, preserve_dims=None):
+    """BinaryContingencyManager via ThresholdEventOperator.make_contingency_manager, counts as a Dataset"""
+    from scores.categorical import ThresholdEventOperator
+    import operator as _op
+    m = ThresholdEventOperator(default_event_threshold=0.5, default_op_fn=_op.ge).make_contingency_manager(fcst, obs)
+    return xr.Dataset(m.transform(reduce_dims=reduce_dims, preserve_dims=preserve_dims).get_counts())
+
+
+def contingency_counts_two_step(fcst, obs, *, reduce_dims=None, preserve_dims=None):
+    """the two-step route: make_event_tables, then BinaryContingencyManager on the event tables"""
+    from scores.categorical import BinaryContingencyManager, ThresholdEventOperator
+    import operator as _op
+    fe, oe = ThresholdEventOperator(default_event_threshold=0.5, default_op_fn=_op.ge).make_event_tables(fcst, obs)
+    return xr.Dataset(BinaryContingencyManager(fe, oe).transform(reduce_dims=reduce_dims, preserve_dims=preserve_dims).get_counts())
+
+
+def contingency_metrics(fcst, obs, *, reduce_dims=None, preserve_dims=None):
+    """a few ratio metrics of the transformed manager"""
+    from scores.categorical import ThresholdEventOperator
+    import operator as _op
+    m = ThresholdEventOperator(default_event_threshold=0.5, default_op_fn=_op.ge).make_contingency_manager(fcst, obs)
+    b = m.transform(reduce_dims=reduce_dims, preserve_dims=preserve_dims)
+    return xr.Dataset({"pod": b.probability_of_detection(), "pofd": b.probability_of_false_detection(), "accuracy": b.accuracy(),
+                       "bias": b.frequency_bias()})
+
+
 E = Entry
 C = "scores.continuous"
 P = "scores.probability"
@@ -245,6 +271,12 @@ REGISTRY = [
     E("binary_discretise_proportion", "scores.processing", "binary_discretise_proportion", "mean", False,
       [("data", "real", "fcst")], no_obs=True, kwargs=lambda c: {"thresholds": [0.0, 1.0], "mode": "<="},
       out_extra_dims=["threshold"]),
+    E("contingency_counts", "sv.registry", "contingency_counts", "other", False, [("fcst", "real", "fcst"), ("obs", "real", "obs")],
+      dask_lazy=False, notes="sum-type: counts over the reduced dims"),
+    E("contingency_counts_two_step", "sv.registry", "contingency_counts_two_step", "other", False,
+      [("fcst", "real", "fcst"), ("obs", "real", "obs")], dask_lazy=False),
+    E("contingency_metrics", "sv.registry", "contingency_metrics", "other", False, [("fcst", "real", "fcst"), ("obs", "real", "obs")],
+      dask_lazy=False),
     E("fss_2d", "scores.spatial", "fss_2d", "other", False, [("fcst", "real", "fcst"), ("obs", "real", "obs")],
       specific=["sx", "sy"], specific_sizes={"sx": 3, "sy": 2}, dask_lazy=False,
       kwargs=lambda c: {"event_threshold": 0.5, "window_size": (2, 1), "spatial_dims": (fresh("sx"), fresh("sy"))},
@@ -282,7 +314,7 @@ def audit_registry():
                 continue
             if "reduce_dims" in ps and "preserve_dims" in ps:
                 live.add(n)
-    reg = {e.func for e in REGISTRY}
+    reg = {e.func for e in REGISTRY if e.module != "sv.registry"}
     notes = []
     if live - reg:
         notes.append(f"unregistered public functions with reduce_dims/preserve_dims: {sorted(live - reg)}")
@@ -304,7 +336,7 @@ UNIVERSE = ["a", "b", "c"]
 
 
 def gen_case(rng, e: Entry, data_dims=None, obs_dims=None, weights_dims=None, sizes=None, nan_p=0.0,
-             with_weights=None, weight_nan_p=0.0):
+             with_weights=None, weight_nan_p=0.0, overlap=None):
     """labelled inputs for entry e.  data_dims: dims of fcst (score-specific dims are appended)."""
     if data_dims is None:
         k = rng.choice([1, 2, 2, 3])
@@ -315,6 +347,18 @@ def gen_case(rng, e: Entry, data_dims=None, obs_dims=None, weights_dims=None, si
     sizes.update(e.specific_sizes)
     if e.no_obs:
         obs_dims = []
+    if obs_dims is None and overlap is not None:
+        # systematic overlap patterns of forecast / observation dimensions
+        if overlap == "same" or (overlap == "obs-superset" and e.obs_subset_of_fcst):
+            obs_dims = list(data_dims)
+        elif overlap == "obs-subset":
+            if len(data_dims) < 2:
+                data_dims = sorted(rng.sample(UNIVERSE, 2))
+            obs_dims = sorted(rng.sample(data_dims, rng.randint(0, len(data_dims) - 1)))
+        elif overlap == "obs-superset":
+            if len(data_dims) == len(UNIVERSE):
+                data_dims = sorted(rng.sample(UNIVERSE, 2))
+            obs_dims = list(data_dims) + [rng.choice([d for d in UNIVERSE if d not in data_dims])]
     if obs_dims is None:
         if e.obs_subset_of_fcst or rng.random() < 0.6:
             obs_dims = [d for d in data_dims if rng.random() < 0.8] if rng.random() < 0.5 else list(data_dims)
